@@ -289,13 +289,60 @@ Fixpoint chain (hops : list hop) (i : thdrs) : list (thdrs * tctx) :=
   end.
 
 (* ------------------------------------------------------------------ *)
+(* Middleware stacks                                                   *)
+(* ------------------------------------------------------------------ *)
+
+(* A server composes its middlewares (http: nested handlers, grpc:
+   ChainUnaryInterceptor / ChainStreamInterceptor, first = outermost). Besides the
+   request-id and trace layers there are layers that must be transparent for the
+   identifiers: the Log middlewares, Debug, PopulateRequestContext,
+   RequestContextKeyVals and grpc StreamCanceler, whose per-stream context is
+   context.WithCancel(ss.Context()) — a child of the incoming context, so every
+   value set by an earlier layer is still there. *)
+Inductive layer :=
+| LRid (xs : list rid_opt) (fresh : bytes)
+| LTrace (xs : list trace_opt) (q : treq)      (* q_base is ignored: the base is the incoming context *)
+| LTransparent.
+
+(* what the next layer (finally the handler) finds: RequestIDKey, the incoming
+   headers / metadata, the three trace keys *)
+Record sstate := { s_rid : option bytes; s_md : headers; s_tctx : tctx }.
+
+Definition set_base (q : treq) (b : tctx) : treq :=
+  {| q_url := q_url q; q_matches := q_matches q; q_trace := q_trace q; q_parent := q_parent q;
+     q_base := b; q_computed := q_computed q; q_draw := q_draw q;
+     q_newtrace := q_newtrace q; q_newspan := q_newspan q |}.
+
+(* context.WithCancel(ctx): same values *)
+Definition with_cancel (s : sstate) : sstate := s.
+
+Definition layer_step (k : kind) (s : sstate) (l : layer) : sstate :=
+  match l with
+  | LRid xs fresh =>
+    let '(id, md) := rid_step k (rid_options xs) (s_md s) (s_rid s) fresh in
+    {| s_rid := Some id; s_md := match md with Some m => m | None => s_md s end; s_tctx := s_tctx s |}
+  | LTrace xs q =>
+    let o := trace_options xs in
+    {| s_rid := s_rid s; s_md := s_md s;
+       s_tctx := r_ctx (fst (trace_step k o (new_sampler o) (set_base q (s_tctx s)))) |}
+  | LTransparent => with_cancel s
+  end.
+
+Definition run_stack (k : kind) (ls : list layer) (s : sstate) : sstate := fold_left (layer_step k) ls s.
+
+Definition is_trace_layer (l : layer) : bool := match l with LTrace _ _ => true | _ => false end.
+
+(* ------------------------------------------------------------------ *)
 (* Response capture                                                    *)
 (* ------------------------------------------------------------------ *)
 
 Inductive wevent :=
 | WriteHeader (c : Z)
 | Write (n : N)           (* n = the byte count the underlying writer returned *)
-| Flush.                  (* the writer underneath is a Flusher (net/http, recorder) *)
+| Flush                   (* the writer underneath is a Flusher (net/http, recorder) *)
+| Copy (n : N)            (* io.Copy(w, non-empty reader without WriteTo): Write, or ReadFrom if w has it; n = bytes copied *)
+| WriteString (n : N)     (* io.WriteString(w, s): WriteString if w has it, else Write *)
+| CtlFlush.               (* http.NewResponseController(w).Flush() *)
 
 Record cap := { cap_status : Z; cap_bytes : N }.
 
@@ -303,13 +350,17 @@ Record cap := { cap_status : Z; cap_bytes : N }.
    codes other than 101 are not final) *)
 Definition final_status (c : Z) : bool := ((200 <=? c) || (c =? 101))%Z.
 
-(* WriteHeader / Write / Flush of ResponseCapture *)
+(* WriteHeader / Write / Flush of ResponseCapture. The capture implements neither
+   io.ReaderFrom nor io.StringWriter nor FlushError: io.Copy and io.WriteString reach
+   Write, a ResponseController reaches Flush — whatever the route, a body write
+   behaves like Write and a flush like Flush (that is the property) *)
 Definition cap_step (s : cap) (e : wevent) : cap :=
   let keep := final_status (cap_status s) in
   match e with
   | WriteHeader c => {| cap_status := if keep then cap_status s else c; cap_bytes := cap_bytes s |}
-  | Write n => {| cap_status := if keep then cap_status s else 200%Z; cap_bytes := (cap_bytes s + n)%N |}
-  | Flush => {| cap_status := if keep then cap_status s else 200%Z; cap_bytes := cap_bytes s |}
+  | Write n | Copy n | WriteString n =>
+    {| cap_status := if keep then cap_status s else 200%Z; cap_bytes := (cap_bytes s + n)%N |}
+  | Flush | CtlFlush => {| cap_status := if keep then cap_status s else 200%Z; cap_bytes := cap_bytes s |}
   end.
 
 Definition capture (h : list wevent) : cap := fold_left cap_step h {| cap_status := 0; cap_bytes := 0 |}.
@@ -322,8 +373,8 @@ Definition commit (s : option Z) (c : Z) : option Z := match s with None => Some
 Definition wr_step (s : wr) (e : wevent) : wr :=
   match e with
   | WriteHeader c => {| w_status := commit (w_status s) c; w_bytes := w_bytes s |}
-  | Write n => {| w_status := commit (w_status s) 200; w_bytes := (w_bytes s + n)%N |}
-  | Flush => {| w_status := commit (w_status s) 200; w_bytes := w_bytes s |}
+  | Write n | Copy n | WriteString n => {| w_status := commit (w_status s) 200; w_bytes := (w_bytes s + n)%N |}
+  | Flush | CtlFlush => {| w_status := commit (w_status s) 200; w_bytes := w_bytes s |}
   end.
 
 Definition sent (h : list wevent) : wr := fold_left wr_step h {| w_status := None; w_bytes := 0 |}.
@@ -340,7 +391,7 @@ Definition final_code (e : wevent) : bool :=
 Fixpoint sum_writes (h : list wevent) : N :=
   match h with
   | [] => 0
-  | Write n :: r => (n + sum_writes r)%N
+  | (Write n | Copy n | WriteString n) :: r => (n + sum_writes r)%N
   | _ :: r => sum_writes r
   end.
 
